@@ -114,6 +114,10 @@ func (s *stream) Read(b []byte) (int, error) {
 		n, err = s.Stream.Read(b)
 	}
 	s.bytesRemainingInFrame -= uint64(n)
+	if err == io.EOF && s.bytesRemainingInFrame > 0 {
+		// the stream ended inside a DATA frame (RFC 9114, section 7.1: a truncated frame)
+		err = io.ErrUnexpectedEOF
+	}
 	return n, err
 }
 
